@@ -19,10 +19,15 @@
 //             the side conditions of the theorems (kc_at, url_ok_exact)
 //   policies  the same for policies.yaml endpoints (BuildHAProxyEndpointsRequest,
 //             BuildEndpointPolicyTree + the dispatcher's selection)
+//   reload    configuration HISTORIES (loads, reloads, mock-clock advances) driven
+//             through the real initializeStreams / UpdatePoliciesData against an
+//             in-process HAProxy management API; the proxy's endpoints.map and
+//             manage_all flag after every step (reload.go, monitor_reload.go)
 package main
 
 import (
 	"fmt"
+	"os"
 
 	"github.com/rs/zerolog"
 
@@ -34,6 +39,8 @@ const (
 	sFlows    = "flows"
 	sPolicies = "policies"
 )
+
+const headerReload = "From Coq Require Import String.\nFrom Verif Require Import C14.Model C14.Reload.\nOpen Scope string_scope."
 
 const header = "From Coq Require Import String.\nFrom Verif Require Import C14.Model.\nOpen Scope string_scope."
 
@@ -269,6 +276,8 @@ func main() {
 	o.DeclareSuite(sExpr, header, "case_expr", "run_expr")
 	o.DeclareSuite(sFlows, header, "case_flows", "run_flows")
 	o.DeclareSuite(sPolicies, header, "case_policies", "run_policies")
+	o.DeclareSuite(sReload, headerReload, "case_reload", "run_reload")
+	theO = o
 	o.Rule("URL patterns: every ASCII punctuation character inside a path segment / alone as a segment / inside a host label, " +
 		"a list of special segments ({id}, {user.id}, {}, {a}{b}, {id}x, unbalanced braces, regex operators, ':::') in path and host " +
 		"position, trailing wildcards in path and host position, untrimmed and malformed spellings, the four patterns of the " +
@@ -277,24 +286,40 @@ func main() {
 		"missing segments, empty segment at a parameter, extra host label, host/path switched, case variants, single-character " +
 		"mutations at every regex-special position, strings an unquoted regex would accept) x verbs (listed, other, lower case). " +
 		"A flows/policies case = one configuration loaded by the real loader with all its probes; an expr case = one expression with " +
-		"all its subjects; non-trivial = some probe selects a filter / some subject is matched")
+		"all its subjects; non-trivial = some probe selects a filter / some subject is matched. " +
+		"Suite reload: a case = one configuration history (flows mode: initializeStreams; policies mode: UpdatePoliciesData delayed / " +
+		"immediate) of 4-10 steps over configurations related as same / overlapping / disjoint / superset / subset / other methods / " +
+		"diagnosis-free / all plugins disabled / catch-all filter or global plugin on and off / refused load / empty, with mock-clock " +
+		"advances at staleVersionTTL-1ns, TTL, TTL+1ns and beyond, reloads in quick succession (A,B,A inside one TTL) and a random walk; " +
+		"non-trivial = at least two loads succeeded and some delayed un-management removed an expression from the proxy's map")
 	r := &run{o: o}
 	if o.Replay != "" {
 		replay(r)
 		o.Finish()
 		return
 	}
-	generate(r)
+	only := os.Getenv("VERIF_C14_ONLY") // development aid: run one part only
+	if only != "reload" {
+		generate(r)
+	}
+	if only == "" || only == "reload" {
+		generateReload(r)
+	}
 	o.Finish()
 }
 
 func replay(r *run) {
 	var probe struct {
-		Flows []Flow `json:"flows"`
-		Decls []Decl `json:"declarations"`
+		Flows []Flow  `json:"flows"`
+		Decls []Decl  `json:"declarations"`
+		Steps []RStep `json:"steps"`
 	}
 	suite, _ := r.o.ReplayCase(&probe)
 	switch {
+	case suite == sReload || len(probe.Steps) > 0:
+		var k ReloadCase
+		r.o.ReplayCase(&k)
+		r.reloadCase(&k)
 	case suite == sFlows || len(probe.Flows) > 0:
 		var k FlowCase
 		r.o.ReplayCase(&k)
